@@ -423,6 +423,36 @@ def replay_fill_command(chk, system, cols, opts, what):
     chk.harness_error("C17 fill command: '%s' did not reproduce" % what)
 
 
+def fill_precision_twin(chk):
+    """Stage R twin: `cij fill` re-emits the table through pandas' default float format -- are the volumes (and supplied values) of the input
+    preserved to the precision they were given with?"""
+    from click.testing import CliRunner
+    import cij.cli.fill as cf
+    import cij.io.traditional.elast_dat as ed
+    lines = ["comment", "42.47767123 2 123.456", "V c11 c12 c44", "42.47767123 300.1234567 124.3001234 80.7654321", "40.12345678 320.7654321 130.1234567 85.1234567",
+             "", "lattice parameters", "5.1 5.2 5.3", "5.0 5.1 5.2"]
+    fn = os.path.join(tempfile.gettempdir(), "c17_prec_%d.dat" % os.getpid())
+    with open(fn, "w") as fp:
+        fp.write("\n".join(lines) + "\n")
+    try:
+        r = CliRunner().invoke(cf.main, [fn, "-s", "cubic"])
+        if r.exit_code != 0:
+            chk.note("precision twin: cij fill failed: %r" % (r.exception,))
+            return
+        with open(fn, "w") as fp:
+            fp.write(r.output)
+        back = ed.read_elast_data(fn)
+        worst = max(abs(back.volumes[i].volume - v) for i, v in enumerate((42.47767123, 40.12345678)))
+        if worst > 5e-9:
+            chk.violation("fill-command:precision", "cij fill re-emits the volume 42.47767123 as %r (and the supplied components likewise to six decimals): the "
+                          "volumes of the input table are not preserved to the precision they were given with" % back.volumes[0].volume, dict(lines=lines))
+        else:
+            chk.side_check("precision twin: volumes re-emitted by cij fill equal the input's to 5e-9", True)
+    finally:
+        if os.path.exists(fn):
+            os.unlink(fn)
+
+
 def build_phonon(tk, md, nv, nq, np_, symbolic=True, rng=None):
     vols = []
     for i in range(nv):
@@ -549,6 +579,7 @@ def main():
     phonon_roundtrip(chk, qi, md, tier, rng)
     phonon_reader_tokens(chk, qi, tier, rng)
     fill_command(chk, tier, rng)
+    fill_precision_twin(chk)
     chk.witness("readers-reached", "sat" if chk.obligations else "unsat")
     chk.bound(static_tables="1-4 rows, 1-13 columns in mixed spellings, with and without lattice block", phonon_files="1-4 volumes, 1-4 q-points, 3-9 modes")
     chk.stub("module-global `float` of elast_dat.py / qha_input.py -> token-aware float (tokens become symbols, everything else is the real float); "
